@@ -216,7 +216,7 @@ def load (valid : List Byte → Bool) (bs : List Byte) : Except LErr Loaded :=
                 match optSection bs h.symbolsOff h.symbolsLen with
                 | .error e => .error e
                 | .ok sy =>
-                  match readSymbols sy (h.symbolsLen / 13) 0 with
+                  match (if h.symbolsOff ≠ 0 ∧ h.symbolsLen > 0 then readSymbols sy (h.symbolsLen / 13) 0 else .ok []) with
                   | .error e => .error e
                   | .ok symbols =>
                     match optSection bs h.instrOff h.instrLen with
